@@ -6,6 +6,7 @@
 # and bind-mounts the two copies over /repo and /verif inside a private mount namespace (unshare -m), so that all
 # paths are the usual ones and ninja / make rebuild only what the patch touched (seconds to a few minutes).
 # Several mutation runs may go on in parallel. Replay files are copied to /verif/.build/work/mut-replays/.
+# VERIF_CLEAN=1: the copy of /verif is reset to the committed HEAD (tracked files restored, untracked source files removed).
 # Exit status = that of the command.
 P=$(readlink -f "$1"); shift
 W=$(mktemp -d /tmp/verif-mut.XXXXXX)
@@ -14,6 +15,10 @@ mkdir -p "$W/repo" "$W/verif"
 rsync -a --exclude _build --exclude .git /repo/ "$W/repo/"
 ( cd "$W/repo" && git apply --unsafe-paths "$P" 2>/dev/null || patch -p1 -s < "$P" ) || { echo "with_patch: patch does not apply to /repo" >&2; exit 98; }
 rsync -a --exclude replays --exclude .git --exclude '.build/work/mut-replays' /verif/ "$W/verif/"
+if [ -n "$VERIF_CLEAN" ]; then   # judge with the COMMITTED /verif (builders may be editing the working tree): restore tracked files, drop untracked ones
+  for f in $(git -C /verif diff --name-only HEAD); do mkdir -p "$(dirname "$W/verif/$f")"; git -C /verif show "HEAD:$f" > "$W/verif/$f" 2>/dev/null || rm -f "$W/verif/$f"; done
+  git -C /verif ls-files --others --exclude-standard | while read -r f; do rm -f "$W/verif/$f"; done
+fi
 unshare -m bash -c 'mount --bind "$0/repo" /repo && mount --bind "$0/verif" /verif && cd /verif && VERIF_HAVE_REPO_LOCK=1 exec "$@"' "$W" "$@"; rc=$?
 mkdir -p /verif/.build/work/mut-replays; cp -r "$W/verif/replays/." /verif/.build/work/mut-replays/ 2>/dev/null
 exit $rc
